@@ -9,7 +9,7 @@ EXPLANATION = ('The file kinds moved/copied by migration equal the file kinds th
                'every successful return of migrate has passed a propagated commit_raw; each of the rc re-commits of an entry carries the value (the value is '
                'moved out only on the last iteration); destination salt is forced to the source salt before the destination is opened; the source is opened '
                'through Db::open; the index walk rebuilds the key from the same 6 + 26 byte split the value table stores.')
-EXPLANATION += ' Added: migrate keeps the source format version (the destination is created by an open that is given the version), compares the destination salt, lets go of destination handles only through a checked close, re-opens the destination before its files are moved; the index walk skips empty slots; known finding F41 (the walk misses tables in the reindex queue).'
+EXPLANATION += ' Added: migrate keeps the source format version (the destination is created by an open that is given the version), compares the destination salt, lets go of destination handles only through a checked close, re-opens the destination before its files are moved; the index walk skips empty slots; the walk visits the index tables of the reindex queue as well as the current one (F41, repaired: rule 4x).'
 ASSUMPTIONS = ['content equality of source and destination is not decided', 'unwind edges ignored']
 TRUSTED = ['rustc MIR construction (nightly)', 'pdb-facts driver', 'rule engine /verif/rules', 'anchor tables in props/C20.py']
 
